@@ -59,8 +59,31 @@ def variants(rnd, base):
     return base
 
 
+def collide(rnd, t):
+    """a different text of the same length and the same 31-polynomial hash (Qt 5's qHash(QString) without hardware CRC, Java's
+    String.hashCode): "Aa" <-> "BB"; or None"""
+    idx = [i for i in range(len(t) - 1) if 0x20 <= ord(t[i + 1]) - 31 < 0x7f and 0x20 <= ord(t[i]) + 1 < 0x7f]
+    if not idx:
+        return None
+    i = rnd.choice(idx)
+    return t[:i] + chr(ord(t[i]) + 1) + chr(ord(t[i + 1]) - 31) + t[i + 2:]
+
+
 def gen_texts(rnd, n, for_regex=False):
     pool = []
+    if rnd.random() < 0.12:
+        # neighbours that a short-cut comparison takes for one another: same length and same hash ...
+        w = rnd.choice([x for x in WORDS if len(x) >= 2] + ["Aa", "aa", "user=Bob", "b "])
+        c = collide(rnd, w)
+        if c is not None:
+            pool.extend([w, c] + ([collide(rnd, c) or c] if rnd.random() < 0.5 else []))
+    if rnd.random() < 0.08:
+        # ... or the same length and the same first few thousand characters (dumps with a common header)
+        L = rnd.choice([255, 256, 1023, 1024, 4094, 4095, 4096, 4097, 5000, 9000, 70000])
+        head = rnd.choice(["x", "error ", "ab", "Hello 42 "]) * (L // 2 + 1)
+        head = head[:L]
+        pool.extend([head + tail for tail in rnd.sample(["a1", "b2", "a2", "1a", "  ", "aa", "ab"], 3)])
+        pool.append(head[:-1] + "!" + "a1")
     for _ in range(rnd.randint(1, 5)):
         if for_regex or rnd.random() < 0.4:
             pool.append(rnd.choice(WORDS))
